@@ -104,9 +104,9 @@ var gfSpecs = []gfSpec{
 	{pkg: "", recv: "Editor", fn: "ApplyOpts", lean: "editorApplyOpts"},
 	{pkg: "", recv: "Editor", fn: "applyGParagraphsOpts", lean: "editorApplyGParagraphsOpts"},
 	{pkg: "", recv: "Editor", fn: "ApplyParagraphsOpts", lean: "editorApplyParagraphsOpts"},
-	{pkg: "", recv: "Editor", fn: "WrapOpts", lean: "editorWrapOpts",
-		// the placeholder search: of |sep|+1 consecutive candidates one does not occur among the |sep| runes of the separator
-		fuel: []string{"v_opts.lineSep.length + 1"}},
+	// the placeholder search: of |sep|+1 consecutive candidates one does not occur among the |sep| runes of the separator
+	{pkg: "", fn: "affixPlaceholder", lean: "affixPlaceholder", fuel: []string{"v_lineSep.length + 1"}},
+	{pkg: "", recv: "Editor", fn: "WrapOpts", lean: "editorWrapOpts"},
 	{pkg: "", recv: "Editor", fn: "IndentOpts", lean: "editorIndentOpts"},
 	{pkg: "", recv: "Editor", fn: "InsertTableOpts", lean: "editorInsertTableOpts"},
 	{pkg: "", recv: "Editor", fn: "Wrap", lean: "editorWrap"},
